@@ -393,6 +393,8 @@ def _safeFormat(fmtString: str, fmtDict: Dict[str, Any]) -> str:
                     "PATHOLOGICAL ERROR IN BOTH FORMAT STRING AND "
                     "MESSAGE DETAILS, MESSAGE LOST"
                 )
+    if isinstance(text, bytes):
+        text = reflect.safe_str(text)
 
     return text
 
